@@ -350,6 +350,13 @@ def job_dense_exhaustive(tier, rng, n):
         s, sg = gp.pauli_F2_to_str(fa)
         ok = ok and np.array_equal(gp.pauli_str_to_F2(s, sg), fa) and np.array_equal(gp.PauliOperator.from_str(s, sg).F2, fa)
         ok = ok and np.abs(sg * gp.hf_kron([gp._one_pauli_str_to_np[c] for c in s]) - dense[a]).max() < 1e-12
+        # the remaining constructors: from_F2 (identity on the binary form), from_np_list (list of 2x2 factors + sign), from_index (sign +1), len()
+        ok = ok and np.array_equal(gp.PauliOperator.from_F2(fa.copy()).F2, fa) and len(P) == n
+        ok = ok and np.array_equal(gp.PauliOperator.from_np_list(P.np_list, sign=sg).F2, fa) and np.abs(sg * gp.hf_kron(P.np_list) - dense[a]).max() < 1e-12
+        if sg == 1:
+            idx = gp.pauli_str_to_index(s)
+            Pi = gp.PauliOperator.from_index(int(idx), n)
+            ok = ok and np.array_equal(Pi.F2, fa) and np.abs(Pi.full_matrix - dense[a]).max() < 1e-12 and gp.pauli_index_to_str(int(idx), n) == s
         inv = P.inverse().F2
         ok = ok and np.abs(SP.dense(inv) @ dense[a] - np.eye(2 ** n)).max() < 1e-12
         # every representation of the RETURNED object (cached string/sign/matrix) must denote the same operator, whether or not
@@ -381,7 +388,7 @@ def job_dense_exhaustive(tier, rng, n):
             if not ok and bad is None:
                 bad = dict(kind='pair', p=fa.tolist(), q=fb.tolist())
     return [ob(f'{PROP}.dense_matrices.exhaustive[n={n}]', 'pass' if bad is None else 'refuted', tier='B', backend='native', exhaustive=True,
-               functions=['numqi.gate._pauli:PauliOperator.full_matrix', 'numqi.gate._pauli:PauliOperator.from_full_matrix',
+               functions=['numqi.gate._pauli:PauliOperator.full_matrix', 'numqi.gate._pauli:PauliOperator.from_full_matrix', 'numqi.gate._pauli:PauliOperator.from_F2', 'numqi.gate._pauli:PauliOperator.from_np_list', 'numqi.gate._pauli:PauliOperator.from_index',
                           'numqi.gate._pauli:PauliOperator.__matmul__', 'numqi.gate._pauli:PauliOperator.inverse',
                           'numqi.gate._pauli:PauliOperator.commutate_with', 'contracts.spec_pauli'],
                evaluations=cnt, distinct_nontrivial=cnt, witness=bad, native=dict(confirmed=bad is not None),
